@@ -1,6 +1,7 @@
 import Tftp.Props.C01
 import Tftp.Props.C08
 import Tftp.Lemmas.Net
+import Tftp.Lemmas.NetLossW
 /-!
 # C15 — Block-number wrap-around
 
@@ -81,5 +82,30 @@ theorem c15_long_transfer_completes (f : Bytes) (b w timeout : Nat) (hb : 0 < b)
     ⟨hb, hw1, hw, rfl, rfl, rfl, rfl⟩
   obtain ⟨fuel, hd⟩ := fault_free_transfer _ _ lc f
   exact ⟨fuel, hd.file, hd.sok⟩
+
+end Tftp
+
+namespace Tftp
+
+/-- **a transfer of more than 65535 blocks survives loss and duplication at and around the wrap**: for every
+window size and every fault schedule with any duplications and fewer than `MAX_RETRIES` losses - wherever
+they fall, so also on the datagrams numbered 65535, 0, 1 - the closed loop ends with the receiver's file
+byte-identical (instance of the loss-tolerance theorem, which has no bound on the number of blocks) -/
+theorem c15_long_transfer_loss_tolerance (f : Bytes) (b w timeout : Nat) (hb : 0 < b) (hw1 : 1 ≤ w) (hw : w < 65536)
+    (ht : 0 < timeout) (_hlong : 65535 < nblocks b f) (fl : Faults)
+    (hbudget : fl.dropData.length + fl.dropAck.length < Gen.maxRetries) :
+    ∃ fuel,
+      (netRun { b := b, w := w, timeout := timeout, rep := 1 } { b := b, w := w, rep := 1, cleanOnError := true }
+        fl fuel
+        (netInit { b := b, w := w, timeout := timeout, rep := 1 } { b := b, w := w, rep := 1, cleanOnError := true }
+          fl f)).r.status = .ok ∧
+      (netRun { b := b, w := w, timeout := timeout, rep := 1 } { b := b, w := w, rep := 1, cleanOnError := true }
+        fl fuel
+        (netInit { b := b, w := w, timeout := timeout, rep := 1 } { b := b, w := w, rep := 1, cleanOnError := true }
+          fl f)).r.win.file.content = f := by
+  have lc : LoopCfgT { b := b, w := w, timeout := timeout, rep := 1 } { b := b, w := w, rep := 1, cleanOnError := true } :=
+    ⟨⟨hb, hw1, hw, rfl, rfl, rfl, rfl⟩, ht⟩
+  obtain ⟨fuel, h1, h2, _⟩ := loss_tolerance _ _ lc fl hbudget f
+  exact ⟨fuel, h1, h2⟩
 
 end Tftp
